@@ -39,10 +39,7 @@ func findOutputsList(obj []any) (any, []any, error) {
 	ret := []any{}
 	outs := []any{}
 
-	output, obj, err := popListMapBoolValue(obj, "$output", true)
-	if err != nil {
-		return nil, nil, err
-	}
+	output, obj := popListOutputMarker(obj, true)
 
 	for _, v := range obj {
 		vNew, subOuts, err := findOutputs(v)
@@ -95,10 +92,7 @@ func filterOutputMap(obj map[string]any) (any, error) {
 }
 
 func filterOutputList(obj []any) (any, error) {
-	output, obj, err := popListMapBoolValue(obj, "$output", false)
-	if err != nil {
-		return nil, err
-	}
+	output, obj := popListOutputMarker(obj, false)
 
 	if output {
 		return nil, nil
@@ -116,4 +110,23 @@ func filterOutputList(obj []any) (any, error) {
 
 		return []any{v2}, nil
 	})
+}
+
+// popListOutputMarker removes the list's own marker entries: maps that
+// consist of nothing but $output: v. A map that carries $output next to other
+// keys is a marked map that happens to be a list entry, not a list marker.
+func popListOutputMarker(l []any, v bool) (bool, []any) {
+	found := false
+
+	l, _ = filterList(l, func(x any) ([]any, error) {
+		xMap, ok := x.(map[string]any)
+		if ok && len(xMap) == 1 && hasMapBoolValue(xMap, "$output", v) {
+			found = true
+			return nil, nil
+		}
+
+		return []any{x}, nil
+	})
+
+	return found, l
 }
